@@ -54,6 +54,12 @@ class TypeOverwriting(Transformation):
             for n in type_graph.keys()
             if n.is_omittable() and not (
                 isinstance(n, tda.DeclarationNode) and n.decl.name == tda.RET
+            ) and not (
+                # The type arguments of this instantiation are not part of
+                # the program (they were erased), so overwriting one of them
+                # would not change the program.
+                isinstance(n, tda.TypeConstructorInstantiationCallNode) and
+                n.t.can_infer_type_args
             )
         ]
         if not candidate_nodes:
